@@ -1,31 +1,18 @@
-"""Per-property configuration of ./check (proof targets, theorems, correspondence streams)."""
+"""Per-property configuration of ./check: one file per property under lib/props_d/<id>.py defining SPEC
+(proof targets, theorems, correspondence streams, texts for MANIFEST.json)."""
+import importlib.util
+import os
 
 PROPS = {}
-NOT_CLAIMED_REASON = {}
-HOOK_COMMITS = []
+HERE = os.path.join(os.path.dirname(os.path.abspath(__file__)), "props_d")
+for f in sorted(os.listdir(HERE)):
+    if f.endswith(".py") and f[0] == "C":
+        spec = importlib.util.spec_from_file_location("props_d_" + f[:-3], os.path.join(HERE, f))
+        m = importlib.util.module_from_spec(spec)
+        spec.loader.exec_module(m)
+        PROPS[f[:-3]] = m.SPEC
 
-PROPS["C11"] = {
-    "module": "C11.Property",
-    "targets": ["C11/Property.vo"],
-    "theorems": ["C11_empty_iff_equal", "C11_apply", "C11_exact_std", "C11_exact_aspa", "C11_sorted_std",
-                 "C11_sorted_aspa", "C11_counts", "C11_model_satisfies_spec", "C11_nonvacuous"],
-    "streams": [{
-        "name": "construct", "bin": "c11", "check_module": "C11.Spec",
-        "model_expr": "model_obs (c_old CASE) (c_new CASE)",
-        "why": {"2": "C11.Spec.spec_okb false: the change set PayloadDelta::construct returned is not exactly the "
-                     "difference of the two data sets (emptiness, apply, listed actions or counts)"},
-    }],
-    "level_text": "Theorems over all pairs of strictly sorted data sets (no size bound): the change set is empty iff "
-                  "the sets are equal, applying it yields the new set, it lists exactly the differing items, counts "
-                  "match; the executable oracle of the property is proved to hold of the model on every input and is "
-                  "evaluated on the implementation's output for every generated case.",
-    "level_note": "Model hand-written from src/payload/delta.rs; tie = differential run of PayloadDelta::construct "
-                  "(public API) against the model inside Coq. Trusted: Coq kernel, harness, rank encoding via the rpki "
-                  "crate's Ord.",
-    "rule": "cases: all pairs of subsets of a 3-item universe per payload type (+ changed ASPA providers), boundary "
-            "(empty/full), random independent sets and small mutations over universes of 4..23 origins, 2 large "
-            "sets; distinct = distinct Coq case term; non-trivial = the implementation returned a non-empty change set",
-    "assumptions": ["Ord/Eq of RouteOrigin, RouterKey, Aspa in the rpki crate are consistent total orders (items are "
-                    "rank-encoded with them)", "PayloadSnapshot inputs have unique items/customers (what "
-                    "into_snapshot produces)"],
-}
+# reasons for properties that are not claimed (MANIFEST.not_applicable)
+NOT_CLAIMED_REASON = {}
+# commits in /repo that add cfg(routinator_verif) hooks
+HOOK_COMMITS = []
